@@ -1,0 +1,49 @@
+//go:build verif
+
+package funcGen
+
+// Verification hooks (build tag verif): read-only accessors for the tables of a generator.
+// Add-only; not compiled without the tag.
+
+type VerifOperator struct {
+	Operator      string
+	IsPure        bool
+	IsCommutative bool
+}
+
+type VerifFunction struct {
+	Args   int
+	IsPure bool
+}
+
+// VerifOperators returns the binary operators in priority order (lowest first) with their flags.
+func (g *FunctionGenerator[V]) VerifOperators() []VerifOperator {
+	var res []VerifOperator
+	for _, o := range g.operators {
+		res = append(res, VerifOperator{Operator: o.Operator, IsPure: o.IsPure, IsCommutative: o.IsCommutative})
+	}
+	return res
+}
+
+// VerifUnary returns the unary operators in registration order.
+func (g *FunctionGenerator[V]) VerifUnary() []string {
+	var res []string
+	for _, u := range g.unary {
+		res = append(res, u.Operator)
+	}
+	return res
+}
+
+// VerifKeyWords returns the configured keywords.
+func (g *FunctionGenerator[V]) VerifKeyWords() []string {
+	return append([]string{}, g.keyWords...)
+}
+
+// VerifStatics returns arity and purity of the registered static functions.
+func (g *FunctionGenerator[V]) VerifStatics() map[string]VerifFunction {
+	res := map[string]VerifFunction{}
+	for n, f := range g.staticFunctions {
+		res[n] = VerifFunction{Args: f.Args, IsPure: f.IsPure}
+	}
+	return res
+}
